@@ -160,8 +160,9 @@ const DOTLIKE: &[&str] = &[".", "(?s:.)", "[^\\n]", "(?-u:.)", "(?s-u:.)", "[^\\
 
 pub const STR_CHARS: &[char] = &[
     'a', 'b', 'c', 'x', '0', '1', '-', '_', '.', '*', ' ', '\n', 'é', 'ß', 'λ', 'σ', 'ς', 'Σ', '\u{212A}', 'ſ', '日', '😀', 'A', 'k', 's', '\u{a0}', '\u{2003}',
+    '[', ']', '(',
 ];
-pub const ASCII_CHARS: &[char] = &['a', 'b', 'c', 'x', '0', '1', '-', '_', '.', '*', ' ', '\n', 'A', 'k'];
+pub const ASCII_CHARS: &[char] = &['a', 'b', 'c', 'x', '0', '1', '-', '_', '.', '*', ' ', '\n', 'A', 'k', '[', ']', '('];
 
 pub const STR_CLASSES: &[&str] = &[
     "[a-c]", "[ac]", "[a-ce-g]", "[a-cx-z0]", "[^a]", "[^a-c]", "\\d", "\\w", "\\s", "\\p{Greek}", ".", "(?s:.)", "[0-9]",
@@ -538,9 +539,9 @@ pub fn pair_defs() -> BoxedStrategy<DefSpec> {
                 1 => Just(Some(Ast::Rep(Box::new(Ast::Lit("ab".into())), Rep { min: 0, max: Some(1), lazy: false, counted: false }))),
                 1 => Just(Some(Ast::Rep(Box::new(Ast::Class("\\d")), Rep { min: 0, max: Some(2), lazy: true, counted: true }))),
             ];
-            (Just(cs), parts, tail, any::<bool>(), prop::bool::weighted(0.2))
+            (Just(cs), parts, tail, prop::bool::weighted(0.35), prop::bool::weighted(0.2))
         })
-        .prop_map(|(cs, parts, tail, utf8_flag, regex_first)| {
+        .prop_map(|(cs, parts, tail, bystander, regex_first)| {
             let w: String = cs.into_iter().collect();
             let mut v = parts;
             if let Some(t) = tail {
@@ -550,8 +551,16 @@ pub fn pair_defs() -> BoxedStrategy<DefSpec> {
             let mut rp = PatSpec::regex(LitSpec::str(r.text()));
             rp.allow_greedy = true;
             let tp = PatSpec::token(LitSpec::str(w));
-            let variants = if regex_first { vec![vec![rp], vec![tp]] } else { vec![vec![tp], vec![rp]] };
-            let _ = utf8_flag;
+            // a bystander declared between the two: the same regex at priority 1, below every default priority - it matches
+            // the literal too but can neither win nor tie; the literal and the regex are then not adjacent in leaf order
+            let mut by = rp.clone();
+            by.priority = Some(1);
+            let variants = match (regex_first, bystander) {
+                (true, false) => vec![vec![rp], vec![tp]],
+                (false, false) => vec![vec![tp], vec![rp]],
+                (true, true) => vec![vec![rp], vec![by], vec![tp]],
+                (false, true) => vec![vec![tp], vec![by], vec![rp]],
+            };
             DefSpec { utf8: true, subpatterns: vec![], skips: vec![], variants }
         })
         .boxed()
@@ -619,7 +628,7 @@ pub fn literal_defs() -> BoxedStrategy<DefSpec> {
         p
     });
     // shapes: single token; single regex ignore(case); skip ignore(case) + token; two tokens with distinct priorities
-    prop_oneof![
+    let plain = prop_oneof![
         4 => tok.clone().prop_map(|t| (vec![], vec![t])),
         2 => rx.clone().prop_map(|r| (vec![], vec![r])),
         2 => (rx.clone(), tok.clone()).prop_map(|(r, mut t)| {
@@ -634,10 +643,28 @@ pub fn literal_defs() -> BoxedStrategy<DefSpec> {
             (vec![], vec![a, b])
         }),
     ]
-    .prop_map(|(skips, toks)| {
+    .prop_map(|(skips, toks)| (skips, toks, None))
+    .boxed();
+    // ignore(case) reaches into subpattern references: the referenced text folds like the rest of the pattern
+    let with_sub = (vec(prop_oneof![4 => select(&['a', 'K', 'k', 's', 'é', 'σ', 'Σ', '\u{212A}', 'ſ', 'z', '0', '-'][..]), 1 => cased_char()], 1..=3), select(vec!["x", "", "Q"]), any::<bool>())
+        .prop_map(|(cs, pre, as_skip)| {
+            let body: String = cs.iter().map(|c| regex_syntax::escape(&c.to_string())).collect();
+            let mut p = PatSpec::regex(LitSpec::str(format!("{pre}(?&w)!")));
+            p.inlined = Some(LitSpec::str(format!("{pre}(?u:{body})!")));
+            p.ignore_case = true;
+            let sub = crate::spec::SubSpec { name: "w".into(), lit: LitSpec::str(body.clone()), inlined: Some(LitSpec::str(body)) };
+            if as_skip {
+                (vec![p], vec![PatSpec::token(LitSpec::str("\u{1}"))], Some(sub))
+            } else {
+                (vec![], vec![p], Some(sub))
+            }
+        })
+        .boxed();
+    prop_oneof![10 => plain, 2 => with_sub]
+    .prop_map(|(skips, toks, sub)| {
         let any_bytes = skips.iter().chain(toks.iter()).any(|p: &PatSpec| p.lit.bytes && std::str::from_utf8(&p.lit.raw).is_err())
             || skips.iter().chain(toks.iter()).any(|p: &PatSpec| p.lit.bytes && p.kind == crate::spec::PatKind::Regex);
-        DefSpec { utf8: !any_bytes, subpatterns: vec![], skips, variants: toks.into_iter().map(|t| vec![t]).collect() }
+        DefSpec { utf8: !any_bytes, subpatterns: sub.into_iter().collect(), skips, variants: toks.into_iter().map(|t| vec![t]).collect() }
     })
     .boxed()
 }
